@@ -4,6 +4,7 @@ import os
 import numpy as np
 
 # Third-party
+import astropy.units as u
 from astropy.utils.decorators import deprecated_renamed_argument
 
 from .data_helpers import validate_prepare_data
@@ -443,10 +444,20 @@ class TheJoker:
         mcmc_init = {k: np.squeeze(v) for k, v in mcmc_init.items()}
 
         p = self.prior.pars
+        rv_unit = data.rv.unit
+
+        def _par(name, unit):
+            # The model's variables are in the units of the prior; the orbit,
+            # trend and noise model below work in (day, radian, data RV unit)
+            par = p[name]
+            factor = getattr(par, xu.UNIT_ATTR_NAME).to(unit)
+            return par if factor == 1 else par * factor
 
         if "t_peri" not in model.named_vars:
             with model:
-                pm.Deterministic("t_peri", p["P"] * p["M0"] / (2 * np.pi))
+                pm.Deterministic(
+                    "t_peri", _par("P", u.day) * _par("M0", u.rad) / (2 * np.pi)
+                )
 
         if "obs" in model.named_vars:
             return mcmc_init
@@ -454,9 +465,9 @@ class TheJoker:
         with model:
             # Set up the orbit model
             orbit = KeplerianOrbit(
-                period=p["P"],
+                period=_par("P", u.day),
                 ecc=p["e"],
-                omega=p["omega"],
+                omega=_par("omega", u.rad),
                 t_periastron=model.named_vars["t_peri"],
             )
 
@@ -469,17 +480,21 @@ class TheJoker:
 
         with model:
             v_pars = (
-                [p["v0"]]
-                + [p[name] for name in offset_names]
-                + [p[name] for name in vtrend_names[1:]]
+                [_par("v0", rv_unit)]
+                + [_par(name, rv_unit) for name in offset_names]
+                + [
+                    _par(name, rv_unit / u.day**i)
+                    for i, name in enumerate(vtrend_names)
+                    if i > 0
+                ]
             )  # skip v0
             v_trend_vec = pt.stack(v_pars, axis=0)
             trend = pt.dot(M, v_trend_vec)
 
-            rv_model = orbit.get_radial_velocity(x, K=p["K"]) + trend
+            rv_model = orbit.get_radial_velocity(x, K=_par("K", rv_unit)) + trend
             pm.Deterministic("model_rv", rv_model)
 
-            err = pt.sqrt(err**2 + p["s"] ** 2)
+            err = pt.sqrt(err**2 + _par("s", rv_unit) ** 2)
             pm.Normal("obs", mu=rv_model, sigma=err, observed=y)
 
             pm.Deterministic("logp", model.logp())
